@@ -1,5 +1,6 @@
 import Srctools.Wire
 import Srctools.Model.C17
+import Srctools.Model.C17IO
 /-! Driver for the instance-collapse model (C17), scalars = `Rat` transmitted as `[num, den]`.
 requests:
   {"op":"collapse","inst":{"name":[cp],"style":n,"fixup":[[[cp],[cp]]…],"R":[9 rat],"o":[3 rat]},
@@ -16,6 +17,10 @@ requests:
   {"op":"subst","tbl":[[[cp],[cp]]…],"dflt":[cp],"text":[cp]}        → {"r":[cp]}
   {"op":"fixup","style":n,"inst":[cp],"name":[cp]}                   → {"r":[cp]}
   {"op":"collapseAll","files":[[n…]…],"init":[n…],"limit":n}         → {"collapses":n,"outcome":s,"left":n}
+  {"op":"io","inst":{"name","style","fixup","outs":[out…]},"ents":[{"proxy":b,"name":[cp],"outs":[out…]}…],"outer":[out…]}
+        → {"outer":[out…],"ents":[{"name":[cp],"outs":[out…]}…]}
+        out = [output, target, input, params, delay rat, times, instOut|null, instIn|null, commaSep]
+  {"op":"param","value":[cp],"maxsplit":n}                           → {"name":[cp],"type":[cp]|null,"default":[cp]}
   {"op":"cells","mode":"shared"|"fresh","style":n,"inst":[cp],"vals":[[cp]…],"times":n}
         → {"results":[[[cp]…]…],"template":[[cp]…]}   (template fixups after `times` collapses)
 -/
@@ -158,6 +163,31 @@ def instOf (j : Json) : Except String (Inst Rat) := do
          fixup := ← tableOf (← j.getObjVal? "fixup"),
          P := ← placementOf (← j.getObjVal? "R") (← j.getObjVal? "o") }
 
+/-- output record = [output, target, input, params (code points), delay rat, times, instOut|null, instIn|null, commaSep] -/
+def optStr (j : Json) : Except String (Option (List Char)) := do
+  if j.isNull then return none
+  pure (some (← Wire.strOfCodes j))
+
+def ofOptStr : Option (List Char) → Json
+  | none => Json.null
+  | some s => Wire.codesOfStr s
+
+def outOf (j : Json) : Except String Out := do
+  let a ← j.getArr?
+  if a.size != 9 then throw "output: need 9 fields"
+  pure { output := ← Wire.strOfCodes a[0]!, target := ← Wire.strOfCodes a[1]!, input := ← Wire.strOfCodes a[2]!,
+         params := ← Wire.strOfCodes a[3]!, delay := ← ratOf a[4]!, times := ← (a[5]!).getInt?,
+         instOut := ← optStr a[6]!, instIn := ← optStr a[7]!, commaSep := ← (a[8]!).getBool? }
+
+def ofOut (o : Out) : Json :=
+  Json.arr #[Wire.codesOfStr o.output, Wire.codesOfStr o.target, Wire.codesOfStr o.input, Wire.codesOfStr o.params,
+             ofRat o.delay, Json.num (JsonNumber.fromInt o.times), ofOptStr o.instOut, ofOptStr o.instIn,
+             Json.bool o.commaSep]
+
+def ioEntOf (j : Json) : Except String IOEnt := do
+  pure { isProxy := ← j.getObjValAs? Bool "proxy", name := ← Wire.strOfCodes (← j.getObjVal? "name"),
+         outs := ← listOf outOf (← j.getObjVal? "outs") }
+
 def outcomeStr : Outcome → String
   | .done => "done"
   | .recursion => "recursion"
@@ -207,6 +237,21 @@ def handle (j : Json) : Except String Json := do
     pure (Json.mkObj [("collapses", Json.num (JsonNumber.fromNat r.collapses)),
                       ("outcome", Json.str (outcomeStr r.outcome)),
                       ("left", Json.num (JsonNumber.fromNat r.left))])
+  | "io" =>
+    let ij ← j.getObjVal? "inst"
+    let I : IOInst := { name := ← Wire.strOfCodes (← ij.getObjVal? "name"),
+                        style := Style.ofCode (← ij.getObjValAs? Nat "style"),
+                        fixup := ← tableOf (← ij.getObjVal? "fixup"),
+                        outs := ← listOf outOf (← ij.getObjVal? "outs") }
+    let ents ← listOf ioEntOf (← j.getObjVal? "ents")
+    let outer ← listOf outOf (← j.getObjVal? "outer")
+    let r := collapseIO I ents outer
+    pure (Json.mkObj [("outer", ofList ofOut r.outer),
+                      ("ents", ofList (fun p => Json.mkObj [("name", Wire.codesOfStr p.1), ("outs", ofList ofOut p.2)]) r.ents)])
+  | "param" =>
+    let v ← Wire.strOfCodes (← j.getObjVal? "value")
+    let p := parseParam (← j.getObjValAs? Nat "maxsplit") v
+    pure (Json.mkObj [("name", Wire.codesOfStr p.name), ("type", ofOptStr p.typeTok), ("default", Wire.codesOfStr p.dflt)])
   | "cells" =>
     let mode ← j.getObjValAs? String "mode"
     let m := if mode == "shared" then CopyMode.shared else CopyMode.fresh
